@@ -91,6 +91,9 @@ def eval_call(eng, e, st):
             if fn == "url_ok":
                 return [(st, VBool(z3.Function("url_ok", ISq, B)(a_)))]
             return [(st, VSeq(z3.Function(fn, ISq, ISq)(a_), "bytes"))]
+        if fn == "is_record" and fn not in st.env:
+            v_ = eng.deref(st, eng.ev1(e.args[0], st))
+            return [(st, VBool(isinstance(v_, VRecord) and v_.cls == ast.literal_eval(e.args[1])))]
         if fn in ("is_response", "is_request") and fn not in st.env:
             v_ = eng.deref(st, eng.ev1(e.args[0], st))
             want = "HttpResponse" if fn == "is_response" else "HttpRequest"
@@ -111,6 +114,16 @@ def eval_call(eng, e, st):
             if fn == "as_bytes":
                 return [(st, VSeq(Val.byval(t_), "bytes"))]
             return [(st, VSeq(Val.strval(t_), "str"))]
+        if fn in ("b64e", "b64d", "b64ue", "b64ud") and fn not in st.env:
+            a_ = eng.as_iseq(st, eng.ev1(e.args[0], st)).t
+            return [(st, VSeq(getattr(smt, fn)(a_), "bytes"))]
+        if fn in ("b64_ok", "b64u_ok") and fn not in st.env:
+            a_ = eng.as_iseq(st, eng.ev1(e.args[0], st)).t
+            return [(st, VBool(getattr(smt, fn)(a_)))]
+        if fn == "rng" and fn not in st.env:
+            return [(st, VInt(smt.rng(eng.as_int(st, eng.ev1(e.args[0], st)))))]
+        if fn == "fill" and fn not in st.env:
+            return [(st, VSeq(smt.fill(eng.as_int(st, eng.ev1(e.args[0], st)), eng.as_int(st, eng.ev1(e.args[1], st))), "bytes"))]
         if fn == "hex_of" and fn not in st.env:
             a_ = eng.as_iseq(st, eng.ev1(e.args[0], st)).t
             return [(st, VSeq(smt_fn("hex_of", ISq, ISq)(a_), "str"))]
@@ -286,6 +299,9 @@ def apply_callable(eng, st, fv, args, kwargs, node):
         kw2.update(kwargs)
         return apply_callable(eng, st, VConst(base, "func"), args, kw2, node)
     if w == "func":
+        c0 = eng.cdb.get(fv.py, None)
+        if eng.spec_mode and c0 is not None and c0.pure:
+            return [(st, pure_app(eng, st, c0, args, kwargs))]
         return contract_call(eng, st, fv.py, args, kwargs, node)
     if w == "class":
         return class_call(eng, st, fv.py, args, kwargs, node)
@@ -1146,6 +1162,10 @@ def contract_call(eng, st, target, args, kwargs, node):
         rty = parse_type(c.returns or "none")
         res, facts = make_result(eng, ns, rty)
         ns.assume(*facts)
+        if c.pure:
+            from .spec import to_term
+            pv = pure_app(eng, ns, c, None, None, bound=bound)
+            ns.assume(to_term(eng, ns, res, c.returns) == to_term(eng, ns, pv, c.returns))
         if c.result_alias and isinstance(res, VRef):
             cell = dict(ns.heap[res.ident])
             for fld, expr in c.result_alias.items():
@@ -1169,6 +1189,18 @@ def contract_call(eng, st, target, args, kwargs, node):
     writeback_views(eng, ns, views)
     outs.append((ns, res))
     return outs
+
+
+def pure_app(eng, st, c, args, kwargs, bound=None):
+    """f(args) for a contract marked pure(): the application of an uninterpreted function symbol; its defining axiom
+    (requires and no raises-condition ==> ensures) is derived from the contract (spec.SpecDB.pure_axiom)."""
+    from .spec import to_term, from_term
+    if bound is None:
+        module, fdef = eng.repo.func(c.target)
+        bound = bind_params(eng, c, fdef, module, args, kwargs)
+    decl = eng.specs.pure_decl(c)
+    terms = [to_term(eng, st, bound[n], ty) for n, ty in c.params]
+    return from_term(decl(*terms), c.returns)
 
 
 def coerce_file_views(eng, st, c, bound, node):
